@@ -39,6 +39,13 @@ func historyIterBody(c *nd.Ctx) nd.Result {
 	reads := c.Choose(2, "application-reads-the-message-streams") == 1
 	var readBodies []string
 	ranOut := false
+	if (take == 1 || take == 2) && take > nmsgs {
+		// asking for more messages than the archive sends is the same as iterating to the end
+		return nd.Result{Skip: true}
+	}
+	if reads && (take == 0 || nmsgs == 0) {
+		return nd.Result{Skip: true} // nothing is handed out
+	}
 	ns := stanza.NSClient
 	var env *vsess.Env
 	var setupErr error
